@@ -155,6 +155,13 @@ def write_syms(v, exe, path):
         p = l.split()
         if len(p) == 4 and p[2] in 'bBdD' and not p[3].startswith(('__', '.', 'asan.', '_')):
             names.add(p[3])
+    # thread-local symbols have offsets, not addresses: not part of the digest (their effects are caught by the output oracles)
+    tls = set()
+    for l in sh(['readelf', '-sW', exe]).stdout.decode(errors='replace').splitlines():
+        p = l.split()
+        if len(p) >= 8 and p[3] == 'TLS':
+            tls.add(p[7])
+    names -= tls
     out = []
     r = sh(['nm', '-S', '--defined-only', exe])
     for l in r.stdout.decode().splitlines():
